@@ -368,8 +368,9 @@ func rotationCase(res *mon.Result, idx int, dir string, attempt int) (bracketed 
 	defer ep.Close()
 	t := mon.NewTable("none", "none", false, dir)
 	key := fmt.Sprintf("c07rot%da%ds%d", idx, attempt, mon.Seed())
+	flushMs, reconnMs := r.PickInt([]int{5, 20}), r.PickInt([]int{50, 200, 5000})
 	cmd := fmt.Sprintf("addRoute sendAllMatch %s  %s spool=true flush=%d reconn=%d connbuf=%d iobuf=%d spoolbuf=1000 spoolsyncevery=1000 spoolsyncperiod=200 spoolsleep=0 unspoolsleep=0",
-		key, ep.Addr, r.PickInt([]int{5, 20}), r.PickInt([]int{50, 200, 5000}), r.PickInt([]int{1000, 30000}), r.PickInt([]int{256, 4096, 2000000})) // reconn 5000: longer than two keep-safe periods
+		key, ep.Addr, flushMs, reconnMs, r.PickInt([]int{1000, 30000}), r.PickInt([]int{256, 4096, 2000000})) // reconn 5000: longer than two keep-safe periods
 	nA := r.Range(50, 600)
 	nB := r.Range(20, nA)
 	w := map[string]interface{}{"route_cmd": cmd, "keep_safe_period_ms": keepPeriod / time.Millisecond, "lines_before_rotation": nA, "lines_after_rotation": nB}
@@ -502,6 +503,16 @@ func rotationCase(res *mon.Result, idx int, dir string, attempt int) (bracketed 
 		}
 		if worst > maxLag {
 			res.Inconclusive(fmt.Sprintf("rotationCase %d: %s - but worst scheduling lag was %v (period %v): the time-based retention cannot be assumed", idx, msg, worst, keepPeriod))
+			return true
+		}
+		// With reconn <= 200ms every relay design has an occasion to notice the reset within a second of it: lines
+		// keep arriving for more than a second (event-driven detection) and the reconnect ticker fires five times
+		// (tick-driven detection). A redo collected more than 1.5s after the reset can then only be a process that
+		// did not get the CPU (seen once, seed 9, load average 90: collected 2.0s after the reset, the 5ms sleeper
+		// measured 192ms), and with the retention shortened five-fold by the accessor that is enough to run into
+		// the second rotation tick. With reconn=5000 the excuse does not apply: there a late relay is late by design.
+		if late := time.Unix(0, collected).Sub(tKill); collected != 0 && reconnMs <= 200 && late > 1500*time.Millisecond {
+			res.Inconclusive(fmt.Sprintf("rotationCase %d: %s - but the redo was collected %v after the reset although reconn=%dms and lines kept arriving (starved process; worst measured lag %v)", idx, msg, late, reconnMs, worst))
 			return true
 		}
 		rotDecided++
